@@ -15,7 +15,7 @@
 <<
     Section S.
       Context {K : FieldOps} {KL : FieldLaws K} {M : ModOps K} {ML : ModLaws M}.
-      Add Field Kfield : (F_th KL).
+      Add Field Kfield : (@F_th K KL).
       ... field identities by [ring]/[field]; module identities by [mod_norm] ...
 >> *)
 From Coq Require Import ZArith List Field Ring Lia Bool.
@@ -28,7 +28,7 @@ Record FieldOps : Type := mkFieldOps {
   Fdiv : F -> F -> F; Finv : F -> F;
   Feqb : F -> F -> bool }.
 
-Record FieldLaws (K : FieldOps) : Prop := mkFieldLaws {
+Class FieldLaws (K : FieldOps) : Prop := mkFieldLaws {
   F_th : field_theory (F0 K) (F1 K) (Fadd K) (Fmul K) (Fsub K) (Fopp K) (Fdiv K) (Finv K) eq;
   Feqb_spec : forall a b : K, Feqb K a b = true <-> a = b }.
 
@@ -38,10 +38,10 @@ Record ModOps (K : FieldOps) : Type := mkModOps {
   Gadd : G -> G -> G; Gopp : G -> G;
   smul : K -> G -> G;
   Geqb : G -> G -> bool }.
-Arguments G0 {K} _. Arguments Gadd {K} _ _ _. Arguments Gopp {K} _ _.
+Arguments G {K} _. Arguments G0 {K} _. Arguments Gadd {K} _ _ _. Arguments Gopp {K} _ _.
 Arguments smul {K} _ _ _. Arguments Geqb {K} _ _ _.
 
-Record ModLaws {K : FieldOps} (M : ModOps K) : Prop := mkModLaws {
+Class ModLaws {K : FieldOps} (M : ModOps K) : Prop := mkModLaws {
   Gadd_assoc : forall a b c : M, Gadd M a (Gadd M b c) = Gadd M (Gadd M a b) c;
   Gadd_comm : forall a b : M, Gadd M a b = Gadd M b a;
   Gadd_0_l : forall a : M, Gadd M (G0 M) a = a;
@@ -115,124 +115,124 @@ End Vec.
 (** ** Laws *)
 Section Laws.
   Context {K : FieldOps} {KL : FieldLaws K} {M : ModOps K} {ML : ModLaws M}.
-  Add Field Kfield : (F_th KL).
+  Add Field Kfield : (@F_th K KL).
   Local Open Scope G_scope.
 
   Lemma F1_neq_0 : F1 K <> F0 K.
-  Proof. exact (F_1_neq_0 (F_th KL)). Qed.
+  Proof. exact (F_1_neq_0 F_th). Qed.
 
   Lemma Feq_dec : forall a b : K, {a = b} + {a <> b}.
   Proof.
     intros a b. destruct (Feqb K a b) eqn:E.
-    - left. now apply (Feqb_spec KL).
-    - right. intro H. apply (Feqb_spec KL) in H. congruence.
+    - left. now apply Feqb_spec.
+    - right. intro H. apply Feqb_spec in H. congruence.
   Qed.
   Lemma Geq_dec : forall a b : M, {a = b} + {a <> b}.
   Proof.
     intros a b. destruct (Geqb M a b) eqn:E.
-    - left. now apply (Geqb_spec ML).
-    - right. intro H. apply (Geqb_spec ML) in H. congruence.
+    - left. now apply Geqb_spec.
+    - right. intro H. apply Geqb_spec in H. congruence.
   Qed.
 
   Lemma Gadd_0_r (a : M) : a + G0 M = a.
-  Proof. rewrite (Gadd_comm ML). apply (Gadd_0_l ML). Qed.
+  Proof. rewrite Gadd_comm. apply Gadd_0_l. Qed.
   Lemma Gadd_opp_l (a : M) : - a + a = G0 M.
-  Proof. rewrite (Gadd_comm ML). apply (Gadd_opp_r ML). Qed.
+  Proof. rewrite Gadd_comm. apply Gadd_opp_r. Qed.
   Lemma Gadd_cancel_l (a b c : M) : a + b = a + c -> b = c.
   Proof.
     intro H. assert (E : - a + (a + b) = - a + (a + c)) by now rewrite H.
-    now rewrite !(Gadd_assoc ML), Gadd_opp_l, !(Gadd_0_l ML) in E.
+    now rewrite !Gadd_assoc, Gadd_opp_l, !Gadd_0_l in E.
   Qed.
   Lemma Gadd_cancel_r (a b c : M) : b + a = c + a -> b = c.
-  Proof. rewrite !(Gadd_comm ML _ a). apply Gadd_cancel_l. Qed.
+  Proof. rewrite !(Gadd_comm _ a). apply Gadd_cancel_l. Qed.
   Lemma smul_0_l (a : M) : F0 K *: a = G0 M.
   Proof.
-    apply (Gadd_cancel_l (F0 K *: a)). rewrite <- (smul_add_l ML), Gadd_0_r.
+    apply (Gadd_cancel_l (F0 K *: a)). rewrite <- smul_add_l, Gadd_0_r.
     f_equal. ring.
   Qed.
   Lemma smul_0_r (x : K) : x *: G0 M = G0 M.
   Proof.
-    apply (Gadd_cancel_l (x *: G0 M)). rewrite <- (smul_add_r ML), Gadd_0_r, (Gadd_0_l ML).
+    apply (Gadd_cancel_l (x *: G0 M)). rewrite <- smul_add_r, Gadd_0_l, Gadd_0_r.
     reflexivity.
   Qed.
   Lemma smul_opp_l (x : K) (a : M) : Fopp K x *: a = - (x *: a).
   Proof.
-    apply (Gadd_cancel_l (x *: a)). rewrite <- (smul_add_l ML), (Gadd_opp_r ML).
+    apply (Gadd_cancel_l (x *: a)). rewrite <- smul_add_l, Gadd_opp_r.
     replace (Fadd K x (Fopp K x)) with (F0 K) by ring. apply smul_0_l.
   Qed.
   Lemma Gopp_smul_m1 (a : M) : - a = Fopp K (F1 K) *: a.
-  Proof. now rewrite smul_opp_l, (smul_1 ML). Qed.
+  Proof. now rewrite smul_opp_l, smul_1. Qed.
   Lemma smul_sub_l (x y : K) (a : M) : Fsub K x y *: a = x *: a - y *: a.
   Proof.
-    unfold Gsub. rewrite <- smul_opp_l, <- (smul_add_l ML). f_equal. ring.
+    unfold Gsub. rewrite <- smul_opp_l, <- smul_add_l. f_equal. ring.
   Qed.
   Lemma Gopp_0 : - G0 M = G0 M.
   Proof. rewrite Gopp_smul_m1. apply smul_0_r. Qed.
   Lemma Gopp_add (a b : M) : - (a + b) = - a + - b.
-  Proof. now rewrite !Gopp_smul_m1, (smul_add_r ML). Qed.
+  Proof. now rewrite !Gopp_smul_m1, smul_add_r. Qed.
   Lemma Gopp_opp (a : M) : - - a = a.
   Proof.
-    rewrite (Gopp_smul_m1 (- a)), (Gopp_smul_m1 a), <- (smul_mul ML).
-    replace (Fmul K (Fopp K (F1 K)) (Fopp K (F1 K))) with (F1 K) by ring. apply (smul_1 ML).
+    rewrite (Gopp_smul_m1 (- a)), (Gopp_smul_m1 a), <- smul_mul.
+    replace (Fmul K (Fopp K (F1 K)) (Fopp K (F1 K))) with (F1 K) by ring. apply smul_1.
   Qed.
   Lemma smul_opp_r (x : K) (a : M) : x *: (- a) = - (x *: a).
   Proof.
-    rewrite (Gopp_smul_m1 a), <- (smul_mul ML), <- smul_opp_l. f_equal. ring.
+    rewrite (Gopp_smul_m1 a), <- smul_mul, <- smul_opp_l. f_equal. ring.
   Qed.
   Lemma smul_inj (x : K) (a b : M) : x <> F0 K -> x *: a = x *: b -> a = b.
   Proof.
     intros Hx H. assert (E : Finv K x *: (x *: a) = Finv K x *: (x *: b)) by now rewrite H.
-    rewrite <- !(smul_mul ML) in E.
+    rewrite <- !smul_mul in E.
     replace (Fmul K (Finv K x) x) with (F1 K) in E by (field; exact Hx).
-    now rewrite !(smul_1 ML) in E.
+    now rewrite !smul_1 in E.
   Qed.
   Lemma Gsub_diag (a : M) : a - a = G0 M.
-  Proof. apply (Gadd_opp_r ML). Qed.
+  Proof. apply Gadd_opp_r. Qed.
   Lemma Gsub_add_cancel (a b : M) : (a - b) + b = a.
-  Proof. unfold Gsub. now rewrite <- (Gadd_assoc ML), Gadd_opp_l, Gadd_0_r. Qed.
+  Proof. unfold Gsub. now rewrite <- Gadd_assoc, Gadd_opp_l, Gadd_0_r. Qed.
   Lemma Gadd_sub_cancel (a b : M) : (a + b) - b = a.
-  Proof. unfold Gsub. now rewrite <- (Gadd_assoc ML), (Gadd_opp_r ML), Gadd_0_r. Qed.
+  Proof. unfold Gsub. now rewrite <- Gadd_assoc, Gadd_opp_r, Gadd_0_r. Qed.
 
   (** *** msm is bilinear *)
-  Lemma msm_nil_r ws : msm ws (@nil M) = G0 M.
+  Lemma msm_nil_r (ws : list K) : msm ws (@nil M) = G0 M.
   Proof. destruct ws; reflexivity. Qed.
 
-  Lemma msm_vadd a : forall b gs, length a = length b ->
+  Lemma msm_vadd (a : list K) : forall (b : list K) (gs : list M), length a = length b ->
     msm (vadd a b) gs = msm a gs + msm b gs.
   Proof.
     induction a as [|x a IH]; intros [|y b] gs Hl; try discriminate; cbn.
-    - now rewrite (Gadd_0_l ML).
-    - destruct gs as [|g gs]; cbn; [now rewrite (Gadd_0_l ML)|].
-      fold (vadd a b). rewrite IH by (cbn in Hl; lia). rewrite (smul_add_l ML).
-      rewrite <- !(Gadd_assoc ML). f_equal. rewrite !(Gadd_assoc ML). f_equal. apply (Gadd_comm ML).
+    - now rewrite Gadd_0_l.
+    - destruct gs as [|g gs]; cbn; [now rewrite Gadd_0_l|].
+      fold (vadd a b). rewrite IH by (cbn in Hl; lia). rewrite smul_add_l.
+      rewrite <- !Gadd_assoc. f_equal. rewrite !Gadd_assoc. f_equal. apply Gadd_comm.
   Qed.
-  Lemma msm_vscale c a : forall gs, msm (vscale c a) gs = c *: msm a gs.
+  Lemma msm_vscale (c : K) (a : list K) : forall gs : list M, msm (vscale c a) gs = c *: msm a gs.
   Proof.
     induction a as [|x a IH]; intros [|g gs]; cbn; try (now rewrite smul_0_r).
-    fold (vscale c a). now rewrite IH, (smul_add_r ML), (smul_mul ML).
+    fold (vscale c a). now rewrite IH, smul_add_r, smul_mul.
   Qed.
-  Lemma vsub_vadd_opp a : forall b, vsub a b = vadd a (vscale (Fopp K (F1 K)) b).
+  Lemma vsub_vadd_opp (a : list K) : forall b : list K, vsub a b = vadd a (vscale (Fopp K (F1 K)) b).
   Proof.
     induction a as [|x a IH]; intros [|y b]; cbn; try reflexivity.
     fold (vsub a b). fold (vscale (Fopp K (F1 K)) b). fold (vadd a (vscale (Fopp K (F1 K)) b)).
     rewrite IH. f_equal. ring.
   Qed.
-  Lemma vscale_length c a : length (vscale c a) = length a.
+  Lemma vscale_length (c : K) (a : list K) : length (vscale c a) = length a.
   Proof. apply map_length. Qed.
   Lemma map2_length {A B C} (f : A -> B -> C) a : forall b, length (map2 f a b) = Nat.min (length a) (length b).
   Proof. induction a; intros [|y b]; cbn; auto. Qed.
-  Lemma msm_vsub a b gs : length a = length b ->
+  Lemma msm_vsub (a b : list K) (gs : list M) : length a = length b ->
     msm (vsub a b) gs = msm a gs - msm b gs.
   Proof.
     intro Hl. rewrite vsub_vadd_opp, msm_vadd by (now rewrite vscale_length).
     rewrite msm_vscale. unfold Gsub. now rewrite <- Gopp_smul_m1.
   Qed.
-  Lemma msm_app a : forall gs b hs, length a = length gs ->
+  Lemma msm_app (a : list K) : forall (gs : list M) (b : list K) (hs : list M), length a = length gs ->
     msm (a ++ b) (gs ++ hs) = msm a gs + msm b hs.
   Proof.
     induction a as [|x a IH]; intros [|g gs] b hs Hl; try discriminate; cbn.
-    - now rewrite (Gadd_0_l ML).
-    - rewrite IH by (cbn in Hl; lia). now rewrite (Gadd_assoc ML).
+    - now rewrite Gadd_0_l.
+    - rewrite IH by (cbn in Hl; lia). now rewrite Gadd_assoc.
   Qed.
 End Laws.
 
@@ -242,7 +242,7 @@ End Laws.
     over the atoms; the remaining goals (one field identity per atom) are closed by [ring]. *)
 Section Reflect.
   Context {K : FieldOps} {KL : FieldLaws K} {M : ModOps K} {ML : ModLaws M}.
-  Add Field Kfield2 : (F_th KL).
+  Add Field Kfield2 : (@F_th K KL).
   Local Open Scope G_scope.
 
   Inductive gexp : Type :=
@@ -290,27 +290,27 @@ Section Reflect.
     - now rewrite vscale_length.
     - now rewrite vscale_length.
   Qed.
-  Lemma msm_zeros {A} (l : list A) env : msm (map (fun _ => F0 K) l) env = G0 M.
+  Lemma msm_zeros {A} (l : list A) (env : list M) : msm (map (fun _ => F0 K) l) env = G0 M.
   Proof.
     revert env. induction l; intros [|g env]; cbn; try reflexivity.
-    now rewrite IHl, (smul_0_l (KL:=KL) (ML:=ML)), (Gadd_0_l ML).
+    now rewrite IHl, smul_0_l, Gadd_0_l.
   Qed.
-  Lemma msm_unitv : forall env i, msm (unitv (length env) i) env = nth i env (G0 M).
+  Lemma msm_unitv : forall (env : list M) i, msm (unitv (length env) i) env = nth i env (G0 M).
   Proof.
     induction env as [|g env IH]; intros i; cbn.
     - now destruct i.
     - destruct i; cbn.
-      + now rewrite msm_zeros, (smul_1 ML), (Gadd_0_r (ML:=ML)).
-      + now rewrite IH, (smul_0_l (KL:=KL) (ML:=ML)), (Gadd_0_l ML).
+      + now rewrite msm_zeros, smul_1, Gadd_0_r.
+      + now rewrite IH, smul_0_l, Gadd_0_l.
   Qed.
   Lemma gden_coef env e : gden env e = msm (gcoef (length env) e) env.
   Proof.
     induction e; cbn.
     - unfold zerov. now rewrite msm_zeros.
     - now rewrite msm_unitv.
-    - rewrite (msm_vadd (KL:=KL) (ML:=ML)) by now rewrite !gcoef_length. now rewrite IHe1, IHe2.
-    - rewrite (msm_vscale (KL:=KL) (ML:=ML)), IHe. apply (Gopp_smul_m1 (KL:=KL) (ML:=ML)).
-    - now rewrite (msm_vscale (KL:=KL) (ML:=ML)), IHe.
+    - rewrite msm_vadd by now rewrite !gcoef_length. now rewrite IHe1, IHe2.
+    - rewrite msm_vscale, IHe. apply Gopp_smul_m1.
+    - now rewrite msm_vscale, IHe.
   Qed.
   Theorem gexp_eq env e1 e2 :
     gcoef (length env) e1 = gcoef (length env) e2 -> gden env e1 = gden env e2.
@@ -338,27 +338,28 @@ Ltac gr_atoms Mo e acc :=
   | _ => let m := gr_mem e acc in
          lazymatch m with true => acc | false => constr:(e :: acc) end
   end.
-Ltac gr_reify Mo env e :=
+Ltac gr_reify Kt Mo env e :=
   lazymatch e with
-  | G0 Mo => constr:(@GeZero _)
-  | Gadd Mo ?a ?b => let ra := gr_reify Mo env a in let rb := gr_reify Mo env b in constr:(GeAdd ra rb)
-  | Gsub Mo ?a ?b => let ra := gr_reify Mo env a in let rb := gr_reify Mo env b in constr:(GeAdd ra (GeOpp rb))
-  | Gopp Mo ?a => let ra := gr_reify Mo env a in constr:(GeOpp ra)
-  | smul Mo ?x ?a => let ra := gr_reify Mo env a in constr:(GeSmul x ra)
-  | _ => let i := gr_find e env in constr:(@GeAtom _ i)
+  | G0 Mo => constr:(@GeZero Kt)
+  | Gadd Mo ?a ?b => let ra := gr_reify Kt Mo env a in let rb := gr_reify Kt Mo env b in constr:(GeAdd ra rb)
+  | Gsub Mo ?a ?b => let ra := gr_reify Kt Mo env a in let rb := gr_reify Kt Mo env b in constr:(GeAdd ra (GeOpp rb))
+  | Gopp Mo ?a => let ra := gr_reify Kt Mo env a in constr:(GeOpp ra)
+  | smul Mo ?x ?a => let ra := gr_reify Kt Mo env a in constr:(GeSmul x ra)
+  | _ => let i := gr_find e env in constr:(@GeAtom Kt i)
   end.
-(** [mod_norm_with KL ML]: close a module identity; leaves nothing if the coefficient
+(** [mod_norm]: close a module identity; leaves nothing if the coefficient
     identities hold by [ring].  Must be used where [Add Field] for [F_th KL] is active. *)
-Ltac mod_norm_with KL ML :=
+Ltac mod_norm :=
   unfold Gsub in *;
   lazymatch goal with
   | |- @eq (G ?Mo) ?l ?r =>
     let at1 := gr_atoms Mo l (@nil (G Mo)) in
     let env := gr_atoms Mo r at1 in
-    let rl := gr_reify Mo env l in
-    let rr := gr_reify Mo env r in
+    let Kt := lazymatch type of Mo with ModOps ?k => k end in
+    let rl := gr_reify Kt Mo env l in
+    let rr := gr_reify Kt Mo env r in
     change (gden env rl = gden env rr);
-    apply (gexp_eq (KL:=KL) (ML:=ML)); cbn [gcoef length unitv zerov vadd vscale map2 map seq];
+    apply gexp_eq; cbn [gcoef length unitv zerov vadd vscale map2 map seq];
     repeat (f_equal; try ring)
   end.
 
@@ -366,6 +367,7 @@ Ltac mod_norm_with KL ML :=
 Definition bls_r : Z := 0x73eda753299d7d483339d80809a1d80553bda402fffe5bfeffffffff00000001.
 
 Section Zmod.
+  Local Open Scope Z_scope.
   Variable r : Z.
   (** modular exponentiation by squaring on the binary representation of the exponent *)
   Fixpoint zpow_pos (b : Z) (e : positive) : Z :=
